@@ -72,6 +72,14 @@ CHECKS = {
               "with submatch indices. [theorems about the matcher's language are being added; see DESIGN 5 (C15)]"),
         note="Comment strings that can occur in a Go source file (valid UTF-8, one line) at the API level; arbitrary bytes at the regex level. Go's regexp is a library model (Regex.v).",
         technique="Coq obligations over the regenerated regex ASTs + exhaustive bounded and fuzzed reader/regex correspondence"),
+    "C08": dict(
+        text=("Theorems (Coq, every package tree, facts, suppression function and exclusion list): with a project-wide exclusion the suppression decision is 'excluded or suppressed as before' "
+              "(from the C16 history theorem); each checker's output under it equals the FILTER of its unrestricted output — for report-time filtering (IMM, CTOR) and for detection-time "
+              "filtering before the once-per-file dedup (TONL01, PKGO01: proved via 'all keyed candidates carry one code'); excluded iff the list holds ALL, the category or the code; ALL excludes "
+              "everything, other tokens nothing; the configuration reaches the analysis only as that global suppression. Tied to the code by runs of the real binary under every single token, "
+              "category pairs, random subsets in any case/spacing by flag and env, each compared with the filtered unrestricted run and with the model."),
+        note="ASCII tokens. IMPL codes are compared metamorphically (filtered baseline) until the @implements model lands.",
+        technique="Coq proof (exclusion commutes with both filtering disciplines) + metamorphic and model correspondence through the real binary"),
 }
 
 PENDING_REASON = "check under construction in this round (designed in DESIGN.md section 5); not yet claimed"
